@@ -1,0 +1,34 @@
+//go:build verif
+
+package s2
+
+import "math"
+
+// Accessors exporting the hidden state of EdgeCrosser and the float leaves of
+// edge_crosser.go to the verification harness (property C03).
+// Add-only; no behaviour of the package changes.
+
+// VerifC03State returns the cached chain vertex and the cached orientation of ACB.
+func (e *EdgeCrosser) VerifC03State() (c Point, acb Direction) { return e.c, e.acb }
+
+// VerifC03Tangents returns the outward-facing tangents computed by NewEdgeCrosser.
+func (e *EdgeCrosser) VerifC03Tangents() (aTangent, bTangent Point) { return e.aTangent, e.bTangent }
+
+// VerifC03AXB returns the cached cross product of the fixed edge.
+func (e *EdgeCrosser) VerifC03AXB() Point { return e.aXb }
+
+// VerifC03TriageSign exposes triageSign.
+func VerifC03TriageSign(a, b, c Point) Direction { return triageSign(a, b, c) }
+
+// VerifC03ExpensiveSign exposes expensiveSign.
+func VerifC03ExpensiveSign(a, b, c Point) Direction { return expensiveSign(a, b, c) }
+
+// VerifC03TangentMaxError evaluates the expression used for maxError in
+// EdgeCrosser.crossingSign (same operations, same order).
+func VerifC03TangentMaxError() float64 { return (1.5 + 1/math.Sqrt(3)) * dblEpsilon }
+
+// VerifC03ReferenceDir exposes Point.referenceDir.
+func VerifC03ReferenceDir(p Point) Point { return p.referenceDir() }
+
+// VerifC03StableSign exposes stableSign.
+func VerifC03StableSign(a, b, c Point) Direction { return stableSign(a, b, c) }
